@@ -4,7 +4,7 @@ from common import *
 
 LENS = 'wire'
 TRACE_MODULE = 'Trace_IggyWire'
-FAMILIES = {'C13': ['wire']}
+FAMILIES = {'C13': ['wire'], 'C19': ['crypto']}
 
 
 def mc_family(family, tier, wd):
@@ -19,6 +19,14 @@ def mc_family(family, tier, wd):
 def build_scenarios(families, tier, wd, seed):
     rnd = random.Random(seed)
     scenarios = []
+    if 'crypto' in families:
+        # C19: the shared encryptor over every length; encrypted message round trips over both transports
+        for k in range(2 if tier == 'quick' else 10):
+            scenarios.append(dict(id=f'crypto-{k}', family='crypto', kind='crypto', seed=rnd.randrange(1 << 30), steps=[1, 2, 3]))
+        for k in range(2 if tier == 'quick' else 12):
+            scenarios.append(dict(id=f'messages-enc-{k}', family='crypto', kind='messages', per_type=40 if tier == 'quick' else 120, seed=rnd.randrange(1 << 30), steps=[1, 2, 3],
+                                  cfg=dict(cache=rnd.choice(['off', 'large']), save_threshold=rnd.choice([1, 3, 1000]), encryption=True)))
+        return scenarios, {'crypto': dict(scenarios=len(scenarios))}
     nrt = 8 if tier == 'quick' else 40
     for k in range(nrt):
         scenarios.append(dict(id=f'roundtrip-{k}', family='roundtrip', kind='roundtrip', per_type=150 if tier == 'quick' else 600, seed=rnd.randrange(1 << 30), steps=[1, 2, 3]))
@@ -36,17 +44,21 @@ def shard(scenarios, nshards):
 
 
 def attribute(prop, scn, events_bad):
-    return [(i, ev, lab) for i, (ev, labels) in sorted(events_bad.items()) for lab in labels]
+    # (in the C19 family a response that differs under encryption is a C19 matter: reads must stay lossless)
+    return [(i, ev, lab) for i, (ev, labels) in sorted(events_bad.items()) for lab in labels
+            if prop == 'C19' or not lab[0].startswith('C19.')]
 
 
 def nontrivial(prop, scn, evs):
     if scn['kind'] == 'roundtrip':
         return len({e['type'] for e in evs if e['ev'] == 'roundtrip' and e['sdk_valid'] and e['decode'] == 'ok'}) >= 40
+    if scn['kind'] == 'crypto':
+        return sum(1 for e in evs if e['ev'] == 'crypto' and e['decrypt'] == 'ok') >= 600
     if scn['kind'] == 'messages':
         return sum(1 for e in evs if e['ev'] == 'pollback' and e['res'] == 'ok' and len(e['got']) > 0) >= 50
     return len({e['kind'] for e in evs if e['ev'] == 'garbage' and not e['is_valid']}) >= 4
 
-RULES = {'C13': 'round-trip scenarios in which >= 40 command types were decoded from valid SDK encodings; garbage scenarios with >= 4 kinds of malformed frame; message scenarios with >= 50 non-empty poll answers compared'}
+RULES = {'C19': 'crypto sweeps with >= 600 lengths decrypted; encrypted message scenarios with >= 50 non-empty poll answers compared', 'C13': 'round-trip scenarios in which >= 40 command types were decoded from valid SDK encodings; garbage scenarios with >= 4 kinds of malformed frame; message scenarios with >= 50 non-empty poll answers compared'}
 ASSUMPTIONS = ['poll responses: messages with payloads of 1..4096 bytes (boundary lengths), with and without headers of all kinds, explicit and server-assigned ids, sent over TCP and HTTP, polled back over both in every window (offset, 1..3) and as a whole',
                'requests: 49 command types built with seeded structure-aware values (numeric / 1,2,3,255-byte string identifiers, optional fields, all header kinds, all polling strategies and partitioning kinds), SDK-encoded and decoded by the server\'s own decoder (guarded re-export); the snapshot command and QUIC framing are not covered',
                'responses are covered end to end by the other lenses (every scenario runs through the real TCP handlers and SDK decoders; the catalogue lens also over HTTP/JSON)',
